@@ -63,8 +63,9 @@ fn parse_allele(src: &mut &str) -> io::Result<(Option<usize>, Phasing)> {
 }
 
 fn next_allele<'a>(src: &mut &'a str) -> &'a str {
-    let (buf, rest) = match src.chars().skip(1).position(is_phasing_indicator) {
-        Some(i) => src.split_at(i + 1),
+    // Byte (not character) offsets are needed to split the string.
+    let (buf, rest) = match src.char_indices().skip(1).find(|&(_, c)| is_phasing_indicator(c)) {
+        Some((i, _)) => src.split_at(i),
         None => src.split_at(src.len()),
     };
 
